@@ -217,6 +217,18 @@ def enumerate_cells(tier, seed):
                     emit(fmt, 'Regions', inject(prng, fmt, regs[:n - 1], kind, pos, dom), kw, f'fail:{kind}@{pos}')
             for bad in BAD_OPTS[fmt]:
                 emit(fmt, 'Regions', regs, dict(kw, **bad), 'opt:' + next(iter(bad)))
+            if fmt in ('ds9', 'crtf') and n == lengths[0]:
+                # a perfectly valid list whose text/label holds non-ASCII characters: anything that fails only at
+                # file-encoding time would fail *after* the destination was opened
+                uni = [json.loads(json.dumps(r)) for r in regs]
+                if fmt == 'ds9':
+                    uni.append(S.reg('TextPixelRegion', center=S.pix(3.0, 4.0), text='\u03b1 Cen \u2713'))
+                    uni[0]['meta'] = dict(uni[0].get('meta') or {}, text='caf\u00e9')
+                else:
+                    t = S.reg('TextSkyRegion' if dom == 'sky' else 'TextPixelRegion',
+                              center=(S.sky(10.0, 20.0, 'icrs') if dom == 'sky' else S.pix(3.0, 4.0)), text='\u03b1 Cen')
+                    uni.append(t)
+                emit(fmt, 'Regions', uni, kw, 'good-unicode')
         for _ in range(1 if simple else 8):            # Region.write
             regs, kw, dom = good_list(prng, fmt, 1, simple)
             emit(fmt, 'Region', regs, kw, 'good')
